@@ -1,8 +1,11 @@
 --------------------------- MODULE ConcurrencyGen ---------------------------
 EXTENDS Concurrency, Json
-AllOps == {"read-basic", "read-bind", "read-bind-repr", "deep-equal", "copy", "encode-cbor", "encode-json", "walk", "load",
+CONSTANT WithGen      \* TRUE: the mixes that involve a node / prototype of freshly generated code (run by the generated runner)
+BaseOps == {"read-basic", "read-bind", "read-bind-repr", "deep-equal", "copy", "encode-cbor", "encode-json", "walk", "load",
            "loadraw", "build-basic", "build-bind", "wrap-explicit", "proto-inferred", "struct-lookup", "ts-clone", "ts-merge"}
-\* one line per operation mix (the initial states); symmetric mixes are emitted once
-Sorted2(p) == \A g \in 1..(NG - 1) : \A i \in 1..OpsPer : TRUE
-Emit == (pc = [g \in 1..NG |-> 1] /\ active = [g \in 1..NG |-> FALSE]) => PrintT(ToJson([mix |-> plan]))
+GenOps == {"read-gen", "read-gen-repr", "encode-gen", "copy-gen", "build-gen"}
+AllOps == IF WithGen THEN BaseOps \cup GenOps ELSE BaseOps
+\* one line per operation mix (the initial states); with WithGen only the mixes that have a generated-code operation
+HasGen == \E g \in 1..NG : \E i \in 1..OpsPer : plan[g][i] \in GenOps
+Emit == (pc = [g \in 1..NG |-> 1] /\ active = [g \in 1..NG |-> FALSE] /\ (WithGen => HasGen)) => PrintT(ToJson([mix |-> plan]))
 =============================================================================
